@@ -353,6 +353,7 @@ def generate(ctx):
         if case['form'] == 'string':
             case['string'] = _render(atoms, rng)
         case['also_sld'] = rng.random() < 0.2
+        case['zero_count'] = rng.random() < 0.15
         yield 'compound', _shape(ctx, rng, m, atoms, case)
 
 
@@ -707,6 +708,28 @@ def check_compound(ctx, case):
         return
     rho = _model_density(case, counts)
     _compare(ctx, got, counts, rho, ws, shape, label, **detail)
+    if case.get('zero_count') and 'natural_density' not in kw:
+        # an atom with count zero, listed BEFORE the others, is not there: the equations weight every atom by its count
+        from ..atoms import lookup
+        present = set((Z, A) for Z, A, _q, _n in case['atoms'])
+        cand = next((c for c in ((6, 0, 0), (1, 0, 0), (1, 2, 0), (13, 0, 0), (47, 0, 0)) if (c[0], c[1]) not in present), None)
+        if cand is not None:
+            zero_atom = lookup(pt.elements, cand)
+            f = compound if hasattr(compound, 'structure') else pt.formula(compound)
+            kwz = dict(kw)
+            if 'density' not in kwz and f.density is not None:
+                kwz['density'] = f.density
+            for how, obj in (('(0, %s) first in a nested structure' % zero_atom, [(0, zero_atom)] + list(f.structure)),
+                             ('{%s: 0.0, ...}' % zero_atom, dict([(zero_atom, 0.0)] + list(f.atoms.items())))):
+                if 'density' not in kwz:
+                    break
+                ctx.count('zero_count.calls')
+                gz = pt.neutron_scattering(obj, **kwz)
+                if _is_none_triple(gz):
+                    ctx.violation('%s with a zero-count atom added [%s] returned (None, None, None)' % (label, how),
+                                  symptom='zero-count', **detail)
+                    continue
+                _compare(ctx, gz, counts, rho, ws, shape, label + ' with a zero-count atom added [%s]' % how, **detail)
     if case.get('also_sld'):
         import numpy as np
         sld = pt.neutron_sld(compound, **kw)
@@ -1042,6 +1065,7 @@ def finish(ctx):
     for k in _state['tabled']:
         ctx.require('energy_dependent_entry_seen.%s%s' % (_state['model'].symbol[k[0]], k[1] or ''), 1,
                     'each of the %d energy-dependent entries must be exercised' % n_tabled)
+    ctx.require('zero_count.calls', 1, 'a compound with a zero-count atom listed first must have been calculated')
     ctx.require('reloaded_private_table.entries', 1, 'an energy-dependent entry must have been read from a private table after init(reload=True)')
     ctx.require('postcondition.evaluations', 1, 'the postcondition on nsf._calculate_scattering must have been evaluated')
     ctx.require('postcondition.clip_active', 1, 'the incoherent clip (sigma_s < sigma_c) must have been active at least once')
